@@ -1155,6 +1155,12 @@ func (m *MapPollard) ingest(delHashes []Hash, proof Proof) error {
 
 	// Calculate and ingest the proof.
 	proofPos, _ := ProofPositions(hnp.positions, m.NumLeaves, m.TotalRows)
+	if len(proof.Proof) > len(proofPos) {
+		// Verification ignores proof hashes that come after the needed ones
+		// so ignore them here as well. Keeping them would make the trimming
+		// below throw away proof positions that are needed.
+		proof.Proof = proof.Proof[:len(proofPos)]
+	}
 	if TreeRows(m.NumLeaves) != m.TotalRows && len(proofPos) != len(proof.Proof) {
 		proofPos = m.trimProofPos(proofPos, m.NumLeaves)
 	}
